@@ -1361,6 +1361,12 @@ class SymExec:
             return bb_isempty(args[0])
         if name == BB + "::has":
             return ("has", args[0], args[1])
+        if name == BB + "::is_disjoint":
+            return bb_isempty(bb_bin("and", args[0], args[1]))
+        if name == BB + "::is_subset":
+            return bb_isempty(bb_bin("and", args[0], bb_not(args[1])))
+        if name == BB + "::is_superset":
+            return bb_isempty(bb_bin("and", args[1], bb_not(args[0])))
         if name == BB + "::len":
             return ("len", args[0])
         if name == BB + "::iter":
